@@ -269,9 +269,12 @@ where
     }
 
     // Distance of each node to itself is the default value
+    // (unless a negative self-loop makes it smaller: that is a negative cycle)
     for node in graph.node_identifiers() {
         let index = graph.to_index(node);
-        set_object(m_dist, index, index, K::default());
+        if is_greater(m_dist, index, index, K::default()) {
+            set_object(m_dist, index, index, K::default());
+        }
         set_object(m_prev, index, index, Some(index));
     }
 
